@@ -473,6 +473,14 @@ func (r *Resolver) resolve(ctx context.Context, rs *resolveState) (*dns.Msg, err
 		} else {
 			r.clearResolutionZoneFailure(rs.req.Question[0], rs.servers.Zone)
 		}
+		if resp.Rcode == dns.RcodeNameError {
+			// An NXDOMAIN with empty sections is still a denial, and it
+			// carries no proof of one. Under a signed zone that is a
+			// validation failure like any other unproven denial, not
+			// something to relay; authority() decides (and lets it pass
+			// for CD, for DNSSEC off and under an insecure delegation).
+			return r.authority(ctx, rs.req, resp, rs.parentDS, rs.servers.Zone)
+		}
 		return resp, nil
 	}
 
@@ -515,7 +523,11 @@ func (r *Resolver) resolve(ctx context.Context, rs *resolveState) (*dns.Msg, err
 	m.RecursionAvailable = true
 	m.Extra = rs.req.Extra
 
-	return m, nil
+	// What the client is about to be told is "no such data": an empty
+	// NOERROR is a NODATA denial. It gets the same validation as one that
+	// arrived with an authority section — none, here, which a signed zone
+	// does not allow.
+	return r.authority(ctx, rs.req, m, rs.parentDS, rs.servers.Zone)
 }
 
 // groupLookup collapses concurrent identical lookups onto one leader
